@@ -11,7 +11,9 @@
 (*   acc   the specification accepts the text                               *)
 (*   ast   (both accept) the real AST is the specified one                  *)
 (*   pr    the real String() is the specified print of that AST             *)
-(*   srt   on the specification, Parse(Print(ast)) = ast                    *)
+(*   srt   on the specification, Parse(PrintQ(ast)) = ast                   *)
+(*   fix   when srt fails: does the law hold with all / one of the two      *)
+(*         deviations of query.go repaired (attribution to a finding)       *)
 (*   ek/eo kind and offset of the specified parse error                     *)
 (*   vars  per re-spacing: does it have the same token sequence             *)
 (*   tn    lexer.validNumber of the text                                    *)
@@ -44,11 +46,17 @@ RecVerdict(rec) ==
                           ELSE <<>>,
                  spans |-> IF WantSpans THEN [j \in 1..Len(T) |-> <<T[j].b, T[j].e>>] ELSE <<>>]
     IN IF p.ok THEN
-         LET pr == Print(p.n) IN
+         LET pr == PrintQ(p.n)
+             srt == (LET r == Parse(pr) IN r.ok /\ r.n = p.n)
+             \* attribution of a failing round trip: does the law hold with the deviations of query.go repaired
+             fix == IF srt THEN [all |-> TRUE]
+                    ELSE [all |-> RoundTripsWith({}, p.n),
+                          emptyImport |-> RoundTripsWith(CodeDeviations \ {"emptyImport"}, p.n),
+                          dotBracket |-> RoundTripsWith(CodeDeviations \ {"dotBracket"}, p.n)]
+         IN
          base @@ [ast |-> IF Has(rec, "ast") THEN rec.ast = p.n ELSE TRUE,
                   pr |-> IF Has(rec, "printed") THEN rec.printed = pr ELSE TRUE,
-                  srt |-> (LET r == Parse(pr) IN r.ok /\ r.n = p.n),
-                  ntok |-> Len(T)]
+                  srt |-> srt, fix |-> fix, ntok |-> Len(T)]
        ELSE base @@ [ek |-> ErrKind(T, p.i), eo |-> IF p.i > Len(T) THEN -1 ELSE T[p.i].e, ntok |-> Len(T)]
 
 \* The verdicts are computed and written while TLC computes the (single) initial state.
